@@ -113,15 +113,21 @@ def n_orders(view, new_order):
     return len(view) + (1 if new_order is not None else 0)
 
 
+def has_view(blotter, strategy, lookup):
+    return (strategy, lookup[1], lookup[2]) in blotter._strategy_selection_orders
+
+
 def order_ok(o):
     return (is_limit(o) or is_sp(o)) and implies(is_sp(o), o.order_type.liability is not None)
 
 
 @contract("flumine/markets/blotter.py::Blotter.get_exposures", tags=["C16", "C01"])
 def _(self, strategy: Ref("BaseStrategy"), lookup: Tup(ATOM, INT, REAL), exclusion: Opt(Ref("BaseOrder")), new_order: Opt(Ref("BaseOrder"))) -> Ref("Exposures"):
-    requires("view_exists", (strategy, lookup[1], lookup[2]) in self._strategy_selection_orders)
-    requires("known_order_types", forall(lambda j: order_ok(sel_view(self, strategy, lookup)[j]), 0, len(sel_view(self, strategy, lookup)))
+    requires("known_order_types", implies(has_view(self, strategy, lookup), forall(lambda j: order_ok(sel_view(self, strategy, lookup)[j]), 0, len(sel_view(self, strategy, lookup))))
              and implies(new_order is not None, order_ok(new_order)))
+    modifies_map(self._strategy_selection_orders)  # a defaultdict: the first look-up of a selection inserts an empty view
+    ensures("view_is_kept_or_created_empty", has_view(self, strategy, lookup)
+            and (sel_view(self, strategy, lookup) is old(sel_view(self, strategy, lookup)) if old(has_view(self, strategy, lookup)) else len(sel_view(self, strategy, lookup)) == 0))
     local(mb=ListOf(Tup(REAL, REAL)), ml=ListOf(Tup(REAL, REAL)), ub=ListOf(Tup(REAL, REAL)), ul=ListOf(Tup(REAL, REAL)))
     invariant(0, "matched_back", pair_sum_win(mb) == sum_(lambda j: mb_win(order_at(sel_view(self, strategy, lookup), new_order, j), exclusion), 0, _i0)
               and -pair_sum_size(mb) == sum_(lambda j: mb_lose(order_at(sel_view(self, strategy, lookup), new_order, j), exclusion), 0, _i0))
@@ -168,8 +174,8 @@ def wp_lose(blotter, strategy, lookup, exclusion, new_order):
 
 @contract("flumine/markets/blotter.py::Blotter.selection_exposure", tags=["C16"])
 def _(self, strategy: Ref("BaseStrategy"), lookup: Tup(ATOM, INT, REAL)) -> REAL:
-    requires("view_exists", (strategy, lookup[1], lookup[2]) in self._strategy_selection_orders)
-    requires("known_order_types", forall(lambda j: order_ok(sel_view(self, strategy, lookup)[j]), 0, len(sel_view(self, strategy, lookup))))
+    requires("known_order_types", implies(has_view(self, strategy, lookup), forall(lambda j: order_ok(sel_view(self, strategy, lookup)[j]), 0, len(sel_view(self, strategy, lookup)))))
+    modifies_map(self._strategy_selection_orders)
     ensures("worst_case_loss_or_zero",
             result == (-wp_win(self, strategy, lookup, None, None) if wp_win(self, strategy, lookup, None, None) < wp_lose(self, strategy, lookup, None, None)
                        else -wp_lose(self, strategy, lookup, None, None))
